@@ -34,12 +34,29 @@ def extract_smaller_path(repo):
                            % (REL, len(calls), src.count("smaller_path(")))
     if not re.search(r"if chosen_path\.is_empty\(\) \|\| path < chosen_path \{", src):
         raise ExtractError("step 5.4.6 selection changed in %s" % REL)
+    # step 2: which predicates are rejected before anything else
+    m2 = re.search(r"for quad in &quads \{(.*?)for component in iter_spog\(quad\.spog\(\)\) \{", src, re.S)
+    if not m2:
+        raise ExtractError("step 2 loop header not found in %s" % REL)
+    pre = re.sub(r"\s+", "", re.sub(r"//[^\n]*", "", m2.group(1)))
+    pre = re.sub(r'"[^"]*"', '""', pre)
+    blank_only = 'ifquad.p().is_blank_node(){returnErr(C14nError::Unsupported("".to_string(),));}'
+    iri_too = blank_only + 'if!quad.p().is_iri(){returnErr(C14nError::Unsupported("".to_string(),));}'
+    if pre == blank_only:
+        must_be_iri = False
+    elif pre == iri_too:
+        must_be_iri = True
+    else:
+        raise ExtractError("unrecognised predicate checks at the head of step 2 in %s: %s" % (REL, pre[:300]))
     out = [HEADER, "namespace SophiaModel.Gen\n",
            "/-- `true`: `smaller_path` compares lengths first (the shipped code); `false`: it is the skip rule of\n"
            "RDFC-1.0 4.8.3 steps 5.4.4.3 / 5.4.5.5 (`path1.len() <= path2.len() && path1 < path2`) -/\n",
            "def smallerPathLengthFirst : Bool := %s\n" % ("true" if length_first else "false"),
+           "/-- `true`: step 2 of `relabel_with` rejects every non-IRI predicate with `Unsupported` (after the\n"
+           "blank-predicate test); `false`: only blank node predicates are rejected there (the shipped code) -/\n",
+           "def predicateMustBeIri : Bool := %s\n" % ("true" if must_be_iri else "false"),
            "end SophiaModel.Gen\n"]
-    return "".join(out), {"length_first": length_first}
+    return "".join(out), {"length_first": length_first, "predicate_must_be_iri": must_be_iri}
 
 
 EXTRACTORS = {"rdfc10_smaller_path": ("Rdfc10Variant.lean", extract_smaller_path)}
